@@ -32,10 +32,10 @@ type Edit struct {
 // Buffer holds a document as UTF-16 code units, as a conforming client does.
 type Buffer struct{ u []uint16 }
 
-func New(text string) *Buffer      { return &Buffer{u: utf16.Encode([]rune(text))} }
-func (b *Buffer) String() string   { return string(utf16.Decode(b.u)) }
-func (b *Buffer) Units() []uint16  { return b.u }
-func (b *Buffer) Clone() *Buffer   { return &Buffer{u: append([]uint16(nil), b.u...)} }
+func New(text string) *Buffer     { return &Buffer{u: utf16.Encode([]rune(text))} }
+func (b *Buffer) String() string  { return string(utf16.Decode(b.u)) }
+func (b *Buffer) Units() []uint16 { return b.u }
+func (b *Buffer) Clone() *Buffer  { return &Buffer{u: append([]uint16(nil), b.u...)} }
 
 // lineSpans returns, per line, the offset of its first unit and of the end of
 // its content (line terminator excluded). Lines end at "\n" or "\r\n"; a lone
